@@ -73,10 +73,12 @@ func Main(c *run.Ctx) {
 		}
 	}
 	c.Floor("label sets fingerprinted", nsets, 0)
+	c.Floor("neighbouring label sets fingerprinted", 100, 0)
 	c.Floor("acknowledged samples checked for a discoverable series row", 200, 0)
 	c.Floor("histories with a failed series insert followed by a client retry", 1, 0)
 	c.Floor("histories with a cache reset between pushes", 1, 0)
 	c.Floor("samples within 1 s of UTC or local midnight", 10, 0)
+	c.Floor("pushes with one stream's entries on several UTC days and out of time order", 10, 0)
 }
 
 func childEnd(c *run.Ctx, out run.ChildOutcome, what string) {
@@ -240,6 +242,49 @@ func childFP(c *run.Ctx, cfg childCfg) {
 				}
 			}
 		}
+		// neighbours: sets whose concatenated names and values read the same as this one's but which are different
+		// sets (a byte moved across a name/value boundary, two values swapped, one label folded into the value of
+		// another). Each must get its own fingerprint and document, and pushing them must not change what the
+		// base set gets afterwards (fingerprints do not depend on what the process has seen before).
+		if i%3 == 0 && ref != 0 {
+			fpOf := func(ls [][2]string) (uint64, string, bool) {
+				fn, ctx := parserFor("loki-json-values")
+				p := runParser(fn, ctx, bodyFor(c, "loki-json-values", ls, i))
+				if p.err != nil || len(p.fps) == 0 {
+					return 0, "", false
+				}
+				return p.fps[0], p.docs[0], true
+			}
+			for _, nb := range neighbours(labels) {
+				nc := canonical(nb.labels)
+				if nc == canon {
+					continue
+				}
+				f, doc, ok := fpOf(nb.labels)
+				if !ok {
+					continue
+				}
+				c.Floor("neighbouring label sets fingerprinted", 0, 1)
+				c.Cover("neighbour-kinds", nb.kind, 1)
+				if f == ref && cfg.FPType == 1 {
+					c.Violation("fingerprint-shared-by-neighbouring-sets/"+nb.kind, fmt.Sprintf("different label sets %s and %s get the same fingerprint %d", canon, nc, f), map[string]any{"a": labels, "b": nb.labels, "fp_type": cfg.FPType})
+				}
+				if m, err := gen.StrictJSONStringMap([]byte(doc)); err == nil && canonicalMap(m) != nc {
+					c.Violation("label-document-differs", fmt.Sprintf("label document %q decodes to %s, the pushed set is %s", doc, canonicalMap(m), nc), map[string]any{"labels": nb.labels})
+				}
+				if prev, ok := seen[f]; ok && prev != nc && cfg.FPType == 1 {
+					c.Violation("fingerprint-collision", fmt.Sprintf("different label sets %s and %s share fingerprint %d", prev, nc, f), map[string]any{"a": prev, "b": nc})
+				}
+				seen[f] = nc
+				// and the neighbour again after the base: same value both times
+				if f2, _, ok := fpOf(nb.labels); ok && f2 != f {
+					c.Violation("fingerprint-depends-on-history", fmt.Sprintf("label set %s: fingerprint %d, then %d when pushed again", nc, f, f2), map[string]any{"labels": nb.labels, "fp_type": cfg.FPType})
+				}
+			}
+			if again, _, ok := fpOf(labels); ok && again != ref {
+				c.Violation("fingerprint-depends-on-history", fmt.Sprintf("label set %s: fingerprint %d at first, %d after its neighbouring sets were pushed", canon, ref, again), map[string]any{"labels": labels, "fp_type": cfg.FPType})
+			}
+		}
 		c.Case(fmt.Sprintf("fp|type%d|n=%d|hostile=%v|proto=%s", cfg.FPType, n, hostile, fpProtos[i%len(fpProtos)]))
 		c.Floor("label sets fingerprinted", 0, 1)
 		if i < 2 {
@@ -257,6 +302,50 @@ func childFP(c *run.Ctx, cfg childCfg) {
 	if cfg.FPType == 0 && collisions > 0 {
 		c.Note(fmt.Sprintf("Bernstein (32-bit) fingerprint type: %d collisions among %d sets (inherent at this width, not judged)", collisions, cfg.N))
 	}
+}
+
+type neighbour struct {
+	kind   string
+	labels [][2]string
+}
+
+func nameByte(b byte) bool {
+	return b == '_' || (b >= 'a' && b <= 'z') || (b >= 'A' && b <= 'Z') || (b >= '0' && b <= '9')
+}
+
+func neighbours(ls [][2]string) []neighbour {
+	var out []neighbour
+	has := func(set [][2]string, name string, except int) bool {
+		for j, l := range set {
+			if j != except && l[0] == name {
+				return true
+			}
+		}
+		return false
+	}
+	cp := func() [][2]string { return append([][2]string{}, ls...) }
+	for j, l := range ls {
+		n, v := l[0], l[1]
+		if len(v) >= 2 && nameByte(v[0]) && !has(ls, n+v[:1], j) {
+			x := cp()
+			x[j] = [2]string{n + v[:1], v[1:]}
+			out = append(out, neighbour{"byte-moved-from-value-to-name", x})
+		}
+		if len(n) >= 2 && !(n[len(n)-2] >= '0' && n[len(n)-2] <= '9' && len(n) == 2) && !has(ls, n[:len(n)-1], j) {
+			x := cp()
+			x[j] = [2]string{n[:len(n)-1], n[len(n)-1:] + v}
+			out = append(out, neighbour{"byte-moved-from-name-to-value", x})
+		}
+		if j+1 < len(ls) && ls[j+1][1] != v {
+			x := cp()
+			x[j][1], x[j+1][1] = x[j+1][1], x[j][1]
+			out = append(out, neighbour{"values-swapped", x})
+			y := append(cp()[:j+1], ls[j+2:]...)
+			y[j] = [2]string{n, v + ls[j+1][0] + ls[j+1][1]}
+			out = append(out, neighbour{"label-folded-into-previous-value", y})
+		}
+	}
+	return out
 }
 
 func classOfBadByte(labels [][2]string) string {
@@ -333,13 +422,17 @@ func runHistory(c *run.Ctx, cfg childCfg, gi int) {
 	nops := 3 + r.Intn(6)
 	hadRetry, hadReset := false, false
 	midnight := 0
+	unordered := 0
 	for o := 0; o < nops; o++ {
-		op := []string{"push", "push", "push-next-day", "fail-series+retry", "cache-reset", "push-midnight"}[r.Intn(6)]
+		op := []string{"push", "push", "push-next-day", "fail-series+retry", "cache-reset", "push-midnight", "push-unordered-days"}[r.Intn(7)]
 		if o == 0 && gi%3 == 0 {
 			op = "fail-series+retry"
 		}
 		if o == 1 && gi%3 == 1 {
 			op = "push-midnight"
+		}
+		if o == 1 && gi%3 == 2 {
+			op = "push-unordered-days"
 		}
 		ops = append(ops, op)
 		tsFor := func() int64 {
@@ -379,6 +472,35 @@ func runHistory(c *run.Ctx, cfg childCfg, gi int) {
 			t0 := tsFor()
 			for e := 0; e < ne; e++ {
 				st.Entries = append(st.Entries, gen.Entry{TsNs: t0 + int64(e), Line: fmt.Sprintf("L[h%d-%d-%d-%d]", gi, o, k, e), HasLine: true})
+			}
+			if op == "push-unordered-days" {
+				// one stream object whose entries lie on several UTC days and are not in time order (legal for every
+				// push protocol): each day present needs its own series row
+				st.Entries = nil
+				ne = 2 + r.Intn(3)
+				var ts []int64
+				if r.Intn(2) == 0 {
+					// straddle UTC midnight by a few seconds
+					m := baseDay.Add(24 * time.Hour)
+					ts = append(ts, m.Add(time.Duration(1+r.Intn(20))*time.Second).UnixNano(), m.Add(-time.Duration(1+r.Intn(20))*time.Second).UnixNano())
+				}
+				for len(ts) < ne {
+					ts = append(ts, baseDay.Add(time.Duration(r.Intn(3))*24*time.Hour+time.Duration(r.Intn(86400))*time.Second).UnixNano())
+				}
+				switch r.Intn(3) {
+				case 0:
+					sort.Slice(ts, func(a, b int) bool { return ts[a] > ts[b] })
+				case 1:
+					r.Shuffle(len(ts), func(a, b int) { ts[a], ts[b] = ts[b], ts[a] })
+				}
+				days := map[string]bool{}
+				for e, t := range ts {
+					days[utcDate(t)] = true
+					st.Entries = append(st.Entries, gen.Entry{TsNs: t, Line: fmt.Sprintf("L[h%d-%d-%d-%d]", gi, o, k, e), HasLine: true})
+				}
+				if len(days) > 1 && !sort.SliceIsSorted(ts, func(a, b int) bool { return ts[a] < ts[b] }) {
+					unordered++
+				}
 			}
 			lc.Streams = append(lc.Streams, st)
 		}
@@ -501,6 +623,9 @@ func runHistory(c *run.Ctx, cfg childCfg, gi int) {
 	}
 	c.Case(fmt.Sprintf("history|tz=%s|cluster=%v|ttl=%d|%s", cfg.TZ, cfg.Writer.ClusterName != "", cfg.Writer.CacheTTLms, opsKey))
 	c.Floor("acknowledged samples checked for a discoverable series row", 0, checked)
+	if unordered > 0 {
+		c.Floor("pushes with one stream's entries on several UTC days and out of time order", 0, unordered)
+	}
 	if hadRetry {
 		c.Floor("histories with a failed series insert followed by a client retry", 0, 1)
 	}
